@@ -227,7 +227,7 @@ func uniqueRaws(r *Rng, xs []ExtSpec) {
 
 func genC12(r *Rng, tier string) *Plan {
 	g := NewHistGen(r, "C12")
-	g.AddForest(ForestOpts{MaxEnts: 5, MaxDepth: 4, Mix: KeyMix{RSA1024: 1, EC: 0, Omit: 3}, MaxExts: 2, Dirs: r.Bool(), Aliases: r.Bool(),
+	g.AddForest(ForestOpts{Bulk: 30, MaxEnts: 5, MaxDepth: 4, Mix: KeyMix{RSA1024: 1, EC: 0, Omit: 3}, MaxExts: 2, Dirs: r.Bool(), Aliases: r.Bool(),
 		KeyIDs: true, Validity: valRelative, JSONMix: r.Chance(1, 4)}, r.Chance(1, 2))
 	for _, e := range g.Ents {
 		uniqueRaws(r, e.Exts)
